@@ -929,7 +929,7 @@ def convert(ev, st, info, x, src, dst):
     """From::from(x) : src -> dst"""
     if src == dst:
         return [(st, x)]
-    params = set(g for g in info['fr'].fn['generics'] if not g.startswith("'"))
+    params = set(g for g in info['fr'].fn['generics'] if not g.startswith("'")) | ev.entry_generics
     if tys.is_concrete(src, params) and tys.is_concrete(dst, params):
         r = ev.find_impl('std::convert::From', dst, [src], 'from')
         if r is not None:
